@@ -788,3 +788,19 @@ MUTANTS += [
       "        self.set_z3_assertions(self.task_1._scheduled == self.task_2._scheduled)",
       "        self.set_z3_assertions(self.task_1._scheduled == self.task_2._scheduled)\n        self.set_z3_assertions(z3.Implies(z3.And(self.task_1._scheduled, self.task_2._scheduled), self.task_1._end <= self.task_2._start))"),
 ]
+
+MUTANTS += [
+    # ---- audit of the exporters: the right call is there, but its result is post-processed ----
+    B("c16-json-dump-post-processed", ["C16"], BS_,
+      "        return self.model_dump_json(indent=None if compact else 4, exclude=\"problem\")",
+      "        return self.model_dump_json(indent=None if compact else 4, exclude=\"problem\").replace(\"null\", \"0\")"),
+    B("c16-json-file-writes-a-truncated-dump", ["C16"], BS_,
+      "            f.write(self.to_json(compact))", "            f.write(self.to_json(compact)[:65536])"),
+    B("c16-smt-export-post-processed", ["C16"], SV,
+      "                outfile.write(self._solver.to_smt2())", "                outfile.write(self._solver.to_smt2().replace(\"(check-sat)\", \"\"))"),
+    B("c16-data-frame-drops-unscheduled-rows", ["C16"], SOL,
+      "        return tasks_df\n", "        return tasks_df[tasks_df[\"Scheduled\"]]\n"),
+    B("c16-csv-file-capped-at-1000-rows", ["C16"], SOL,
+      "            self.to_df().to_csv(path_or_buf=csv_filename, index=False, sep=separator)",
+      "            self.to_df().head(1000).to_csv(path_or_buf=csv_filename, index=False, sep=separator)"),
+]
